@@ -1022,6 +1022,23 @@ impl Engine for SchedEngine {
         }
         match t[0] {
             "fdtpkts" => "ok".into(),
+            "probe" => {
+                // engine-only scenario on a private Sender (fault-injecting stream source): see probe.rs
+                let mut o2 = Oracle::default();
+                let r = guarded(AssertUnwindSafe(|| crate::probe::run(t, &mut o2)));
+                o.fails.append(&mut o2.fails);
+                match r {
+                    Ok(x) => x,
+                    Err(loc) => {
+                        // known mechanism: a read error of the source before the first packet of a transfer leaves the
+                        // encoder without block: BlockEncoder::read takes the "empty object" branch (debug_assert)
+                        let read_fault = t.get(7).map(|x| *x != "0").unwrap_or(false);
+                        let class = if read_fault && loc.contains("blockencoder.rs") { "C12:stream-read-error-before-first-packet" } else { "C12:stream-source-panic" };
+                        o.fail(class, &format!("sender panics at {} with a failing stream source", loc));
+                        "ok".into()
+                    }
+                }
+            }
             "new" => self.exec_new(t),
             "add" => {
                 let r = self.exec_add(t);
